@@ -43,8 +43,9 @@ Definition cneg (t : ity) (z : Z) : Z := cast (promote t) (- z).
 (* (y < 0) ? -y : y   as written in the sources (wraps for the most negative value) *)
 Definition cabs (t : ity) (z : Z) : Z := if z <? 0 then cneg t z else z.
 
-(* (y < 0) ? -Wide(y) : Wide(y)  with Wide = int64_t for integral sources (repaired, fix-11) *)
-Definition wabs (z : Z) : Z := if z <? 0 then cast (Ity 64 true) (- cast (Ity 64 true) z) else cast (Ity 64 true) z.
+(* (y < 0) ? -Wide(y) : Wide(y)  with Wide = int64_t for signed integral sources, Wide = Source otherwise (repaired, fix-11) *)
+Definition wabs (sgn : bool) (z : Z) : Z :=
+  if sgn then (if z <? 0 then cast i64 (- cast i64 z) else cast i64 z) else z.
 
 (* ------------------------------------------------------------------ floating values carried as integers *)
 (* int -> float conversion (and double -> float): round to nearest, ties to even, prec-bit significand *)
@@ -109,7 +110,7 @@ Section ModIntegral.
   Definition mi_init_Integer (y : Z) : Z := cast St (y mod p).
   (* F: unsigned storage, every other Source:   reduce(x, Caster<Element>((y < 0) ? -y : y));  if (y < 0) negin(x) *)
   Definition mi_init_gen_u_int (T : ity) (y : Z) : Z :=        (* repaired (fix-11): the negation is done in int64_t *)
-    let x := mi_reduce (cast St (wabs y)) in if y <? 0 then mi_negin x else x.
+    let x := mi_reduce (cast St (wabs (sg T) y)) in if y <? 0 then mi_negin x else x.
   Definition mi_init_gen_u_float (y : Z) : option Z :=
     obind (f2i St (Z.abs y)) (fun a => let x := mi_reduce a in Some (if y <? 0 then mi_negin x else x)).
   (* G: signed storage, every other Source:   reduce(Caster<Element>(x, y)) *)
@@ -281,7 +282,7 @@ Section ModRuint.
   Definition ru_init (s : src) (a : Z) : option Z :=
     let fin (m : Z) := let r := m mod p in Some (if a <? 0 then ru_negin r else r) in
     match s with
-    | SI T => fin (ru_wrap (wrapu 64 (wabs a)))            (* repaired (fix-11): negated in int64_t; sign-extended to one limb *)
+    | SI T => fin (ru_wrap (wrapu 64 (wabs (sg T) a)))            (* repaired (fix-11): negated in int64_t; sign-extended to one limb *)
     | SInteger => fin (ru_wrap (Z.abs a mod p))            (* repaired (fix-7): |a| is reduced modulo p as an Integer first *)
     | SRU K' => fin (ru_wrap a)
     | SF _ => obind (f2i u64 (Z.abs a)) (fun m => fin (ru_wrap m))
